@@ -77,12 +77,19 @@ func VP_C13_MeshReaders() {
 // VP_C13_ColliderReaders: two goroutines cast rays / balls against one mesh
 // collider and one mesh SDF.
 func VP_C13_ColliderReaders() {
-	m, _ := vpSmallMesh()
+	// two triangles with disjoint bounding boxes, so that the hierarchy's
+	// "nearer child first" decision differs between the two query points
+	m := NewMesh()
+	m.Add(&Triangle{XYZ(0, 0, 0), XYZ(1, 0, 0), XYZ(0, 1, 0)})
+	m.Add(&Triangle{XYZ(3, 0, 0), XYZ(4, 0, 0), XYZ(3, 1, 0)})
 	coll := MeshToCollider(m)
 	sdf := MeshToSDF(m)
 	ray := &Ray{Origin: XYZ(0.2, 0.2, 1), Direction: Z(-1)}
 	wantN := coll.RayCollisions(ray, nil)
-	wantD := sdf.SDF(XYZ(0.3, 0.3, 0.5))
+	// two query points on opposite sides of the hierarchy's split, so that
+	// the two goroutines descend the tree in different orders
+	qs := [2]Coord3D{XYZ(0.2, 0.2, 0.5), XYZ(3.2, 0.2, 0.5)}
+	wantD := [2]float64{sdf.SDF(qs[0]), sdf.SDF(qs[1])}
 	var gotN [2]int
 	var gotD [2]float64
 	var wg sync.WaitGroup
@@ -94,11 +101,11 @@ func VP_C13_ColliderReaders() {
 			gotN[i] = coll.RayCollisions(ray, nil)
 			_, _ = coll.FirstRayCollision(ray)
 			_ = coll.SphereCollision(XYZ(0.5, 0.5, 0), 0.1)
-			gotD[i] = sdf.SDF(XYZ(0.3, 0.3, 0.5))
+			gotD[i] = sdf.SDF(qs[i])
 		}(i)
 	}
 	wg.Wait()
 	vp.Assert(gotN[0] == wantN && gotN[1] == wantN, "concurrent ray casts get the sequential answer")
-	vp.Assert(gotD[0] == wantD && gotD[1] == wantD, "concurrent SDF queries get the sequential answer")
+	vp.Assert(gotD[0] == wantD[0] && gotD[1] == wantD[1], "concurrent SDF queries get the sequential answers")
 	vp.Reach("end")
 }
